@@ -598,6 +598,18 @@ def fingerprint(p):
             if rs is not None:
                 rows.append((r.fullId, sc, sorted((i, [(t.fullId, round(s, 6)) for t, s in lst]) for i, lst in rs.slotTaskUsage.items())))
     rows.append(("end", str(p["end"])))
+    # the project's own calendar (working time for gaplength, unallocated work) and every resource's slot table: a fast
+    # path wired in at a new place shows here even when no task happens to depend on it (seeded change C13-e)
+    try:
+        size = p.scoreboardSize()
+        rows.append(("project-calendar", common.h12(repr([bool(p.isWorkingTime(i)) for i in range(size)]))))
+        for r in p.resources:
+            for sc in range(p.scenarioCount()):
+                rs = r.data[sc] if r.data else None
+                if rs is not None and rs.scoreboard is not None:
+                    rows.append((r.fullId, sc, "table", common.h12(repr([(x if isinstance(x, int) or x is None else "task") for x in rs.scoreboard]))))
+    except Exception as e:
+        rows.append(("calendar-exc", type(e).__name__))
     return common.h12(repr(rows))
 
 
